@@ -11,31 +11,37 @@ for m in os.listdir(os.path.join(os.path.dirname(__file__), "..", "mutants")):
         mod = importlib.import_module("mutants." + m[:-3])
         muts += [x for x in getattr(mod, "MUTANTS", []) if pid in x[4]]
         harmless += [x for x in getattr(mod, "HARMLESS", []) if pid in x[4]]
-results = []
-for kind, lst in (("mutant", muts), ("harmless", harmless)):
-    for mid, f, old, new, _ in lst:
-        if only and mid not in only:
-            continue
-        d = tempfile.mkdtemp(prefix="pyvc-mut.")
-        try:
-            subprocess.run("git -C /repo archive HEAD | tar -x -C %s" % d, shell=True, check=True)
-            p = os.path.join(d, f)
-            s = open(p).read()
-            if s.count(old) != 1:
-                results.append((mid, kind, "SKIPPED (edit does not apply: %d matches)" % s.count(old)))
-                continue
-            open(p, "w").write(s.replace(old, new))
-            r = subprocess.run(["./check", pid], cwd=os.path.join(os.path.dirname(__file__), ".."), capture_output=True,
-                               text=True, env=dict(os.environ, PYVC_REPO=d))
-            viol = [l for l in r.stdout.splitlines() if l.startswith("VIOLATION")]
-            if kind == "mutant":
-                verdict = "KILLED" if r.returncode == 1 and viol else "SURVIVED (exit %d)" % r.returncode
-            else:
-                verdict = "QUIET" if r.returncode == 0 and not viol else "FALSE-ALARM (exit %d)" % r.returncode
-            results.append((mid, kind, verdict + "  " + (r.stdout.strip().splitlines() or [""])[-1][:150]))
-            if "SURVIVED" in verdict or "FALSE" in verdict:
-                print(r.stdout[-1500:])
-        finally:
-            shutil.rmtree(d, ignore_errors=True)
+from concurrent.futures import ThreadPoolExecutor
+
+
+def run_one(job):
+    kind, (mid, f, old, new, _) = job
+    d = tempfile.mkdtemp(prefix="pyvc-mut.")
+    try:
+        subprocess.run("git -C /repo archive HEAD | tar -x -C %s" % d, shell=True, check=True)
+        p = os.path.join(d, f)
+        s = open(p).read()
+        if s.count(old) != 1:
+            return (mid, kind, "SKIPPED (edit does not apply: %d matches)" % s.count(old))
+        open(p, "w").write(s.replace(old, new))
+        r = subprocess.run(["python3-vt", "-m", "pyvc.runner", pid, "--no-evidence"], cwd=os.path.join(os.path.dirname(__file__), ".."),
+                           capture_output=True, text=True, env=dict(os.environ, PYVC_REPO=d, PYVC_OUT=os.path.join(d, "out")))
+        viol = [l for l in r.stdout.splitlines() if l.startswith("VIOLATION")]
+        if kind == "mutant":
+            verdict = "KILLED" if r.returncode == 1 and viol else "SURVIVED (exit %d)" % r.returncode
+        else:
+            verdict = "QUIET" if r.returncode == 0 and not viol else "FALSE-ALARM (exit %d)" % r.returncode
+        tail = (r.stdout.strip().splitlines() or [""])[-1][:150]
+        extra = ""
+        if "SURVIVED" in verdict or "FALSE" in verdict:
+            extra = "\n" + r.stdout[-1200:] + r.stderr[-600:]
+        return (mid, kind, verdict + "  " + tail + extra)
+    finally:
+        shutil.rmtree(d, ignore_errors=True)
+
+
+jobs = [(k, m) for k, lst in (("mutant", muts), ("harmless", harmless)) for m in lst if not only or m[0] in only]
+with ThreadPoolExecutor(max_workers=int(os.environ.get("SELFTEST_JOBS", "3"))) as tp:
+    results = list(tp.map(run_one, jobs))
 for r in results:
     print("%-40s %-9s %s" % r)
